@@ -403,6 +403,9 @@ pub fn run(tier: &str) -> Result<Report, String> {
             let mut fs: Vec<F> = templates(&ctx.user, true, if tier == "quick" { 2 } else { 5 }).into_iter().filter(|f| f.uses_wild_or_dom()).collect();
             let mut g = Gen::new(Alphabet::extended(ctx.nprops(), 2, 1, 2));
             fs.extend(g.closed_up_to(if tier == "quick" { 3 } else { 4 }).into_iter().filter(|f| f.uses_wild_or_dom()));
+            if tier != "quick" || desc == fams[0].0 {
+                fs.extend(crate::formulas::restricted_scope_duplicates(&ctx.user));
+            }
             if ctx.b.n >= 2 {
                 let pool: Vec<F> = collision_alphabet(&ctx.user).into_iter().take(if tier == "quick" { 8 } else { 16 }).collect();
                 fs.extend(pair_family(&pool, 4, true).into_iter().filter(|f| f.uses_wild_or_dom()));
@@ -471,6 +474,6 @@ pub fn run(tier: &str) -> Result<Report, String> {
     rep.evaluations = total;
     rep.distinct_nontrivial = total.saturating_sub(3 * rep.extra.get("formulae_x_networks").and_then(|v| v.as_u64()).unwrap_or(0));
     rep.sample(json!({"formula": "((!{x}: (AX {x})) & (EF a))", "case": "(%p% & (EF %q%)) with p := result of (!{x}: (AX {x})), q := result of a", "oracle": "raw result must equal (BDD equality) model_check_formula_dirty of the original"}));
-    rep.rule = format!("for every closed plain formula with <= {m} nodes (quick: 4 on con2 and asy2) and every plain template formula (benchmark formulae, quantifier nests, sub-formulae duplicated up to renaming at equal / different depths) on the core networks {which:?}: every non-empty antichain of at most 3 closed proper sub-formula occurrences (atoms included) is replaced by wild-cards bound to model_check_formula_dirty of the sub-formula (once with a fresh wild-card per occurrence, once with one shared wild-card for equal sub-formulae), and the extended evaluation must equal the plain result as a set (formulae with <= 3 nodes also with the fresh labels named 1, true, 0); plus, for the first substitution case of every formula, the list [rewritten, original, True] through model_check_multiple_extended_formulae_dirty (every position must carry the result of its formula); plus the identity cases (plain formula through the extended entry points with an empty context); the same for surrounding formulae that themselves contain wild-cards and restricted domains (extended templates and all extended formulae with <= 3, thorough 4, nodes; label families mixed and colour-disjoint; antichains of <= 2). On the bundled models {:?}: benchmark-style formulae with all antichains of <= 2 non-atomic closed sub-formulae. distinct_nontrivial = number of substitution cases, i.e. evaluations minus the three identity calls per formula (each case a distinct (formula, replaced occurrences, label sharing) triple)", bigmodels::family(tier));
+    rep.rule = format!("for every closed plain formula with <= {m} nodes (quick: 4 on con2 and asy2) and every plain template formula (benchmark formulae, quantifier nests, sub-formulae duplicated up to renaming at equal / different depths) on the core networks {which:?}: every non-empty antichain of at most 3 closed proper sub-formula occurrences (atoms included) is replaced by wild-cards bound to model_check_formula_dirty of the sub-formula (once with a fresh wild-card per occurrence, once with one shared wild-card for equal sub-formulae), and the extended evaluation must equal the plain result as a set (formulae with <= 3 nodes also with the fresh labels named 1, true, 0); plus, for the first substitution case of every formula, the list [rewritten, original, True] through model_check_multiple_extended_formulae_dirty (every position must carry the result of its formula); plus the identity cases (plain formula through the extended entry points with an empty context); the same for surrounding formulae that themselves contain wild-cards and restricted domains (extended templates, the restricted-scope-duplicate family - a closed sub-formula inside a domain-restricted scope next to a jump to the restricted variable and again outside the scope -, and all extended formulae with <= 3, thorough 4, nodes; label families mixed and colour-disjoint; antichains of <= 2). On the bundled models {:?}: benchmark-style formulae with all antichains of <= 2 non-atomic closed sub-formulae. distinct_nontrivial = number of substitution cases, i.e. evaluations minus the three identity calls per formula (each case a distinct (formula, replaced occurrences, label sharing) triple)", bigmodels::family(tier));
     Ok(rep)
 }
